@@ -69,14 +69,27 @@ def _mk_read(n, first):
     return body
 
 
-for n in (1, 2, 3, 4):
+for n in (1, 2, 3):
     for first in range(len(READS)):
-        if n == 4 and first not in (0, 2, 4):
-            continue
         REG.add(f"read/n{n}/first{first}", vec_fn(n - 1, _mk_read(n, first), extra=(("m", bytes),)),
                 pre=vec_pre(n - 1, lambda xs, m: len(m) == 20 and all(0 <= x < len(READS) for x in xs), extra=(("m", bytes),)),
-                tier="quick" if n <= 3 else "thorough", timeout=600 if n >= 3 else 180, weight=n, funcs=F,
+                tier="quick", timeout=600 if n >= 3 else 180, weight=n, funcs=F,
                 desc=f"{n} requests: first = {READS[first][0]!r}, the others symbolic choices over {len(READS)} request kinds (valid and invalid, duplicates allowed); memory of D1/DA symbolic")
+
+
+def _mk_read4(first, second):
+    inner = _mk_read(4, first)
+
+    def body(xs, m):
+        return inner([second] + list(xs), m)
+    return body
+
+
+for first in (0, 2, 4):
+    for second in (0, 2, 4, 6):
+        REG.add(f"read/n4/first{first}/second{second}", vec_fn(2, _mk_read4(first, second), extra=(("m", bytes),)),
+                pre=vec_pre(2, lambda xs, m: len(m) == 20 and all(0 <= x < len(READS) for x in xs), extra=(("m", bytes),)), tier="thorough", timeout=900, weight=3, funcs=F,
+                desc=f"4 requests: {READS[first][0]!r}, {READS[second][0]!r}, then two symbolic choices over {len(READS)} request kinds; memory of D1/DA symbolic")
 
 
 # ---- writes: (request, value builder(v), holder, effect builder(v) | None = must fail and change nothing)
